@@ -26,6 +26,7 @@ func main() {
 	replay := flag.String("replay", "", "replay file written by a previous violation")
 	list := flag.Bool("list", false, "list implemented properties")
 	rulesOnly := flag.String("rules", "", "comma separated rule ids to keep in the output (debug)")
+	multi := flag.String("props", "", "matrix mode: comma separated property ids or 'all'; the repository is loaded once, one summary line per property (not used by registered checks)")
 	dumpTmpl := flag.String("dump-templates", "", "debug: write the instantiated templates into this directory")
 	flag.Parse()
 
@@ -84,6 +85,9 @@ func main() {
 			*tier = r.Tier
 		}
 	}
+	if *multi != "" {
+		os.Exit(runMulti(*multi, *tier, *repo, *verif))
+	}
 	spec := registry[*prop]
 	if spec == nil {
 		fmt.Printf("unknown or unimplemented property %q\n", *prop)
@@ -94,6 +98,76 @@ func main() {
 		os.Exit(2)
 	}
 	os.Exit(runProp(spec, *tier, *repo, *verif, replayRule, replayConstruct, *rulesOnly))
+}
+
+// runMulti runs several properties on one loaded program (used by the refactoring/seed matrix; the
+// registered checks always run one property per process).
+func runMulti(list, tier, repo, verif string) int {
+	var ids []string
+	if list == "all" {
+		for id := range registry {
+			ids = append(ids, id)
+		}
+	} else {
+		ids = splitComma(list)
+	}
+	sort.Strings(ids)
+	prog, err := loadProgram(repo)
+	if err != nil {
+		fmt.Printf("cannot analyse %s: %v\n", repo, err)
+		for _, id := range ids {
+			fmt.Printf("== %s rc=1 LOAD\n", id)
+		}
+		return 1
+	}
+	rc := 0
+	var shared *TmplAll
+	for _, id := range ids {
+		spec := registry[id]
+		if spec == nil {
+			fmt.Printf("== %s rc=2 unknown\n", id)
+			rc = 2
+			continue
+		}
+		r := runLoaded(spec, tier, verif, prog, &shared)
+		fmt.Printf("== %s rc=%d\n", id, r)
+		if r != 0 {
+			rc = 1
+		}
+	}
+	return rc
+}
+
+func runLoaded(spec *PropSpec, tier, verif string, prog *Program, shared **TmplAll) (code int) {
+	t0 := time.Now()
+	c := &Ctx{Prop: spec.ID, Tier: tier, Verif: verif, Prog: prog, tmplAll: *shared}
+	defer func() {
+		if r := recover(); r != nil {
+			fmt.Printf("checker panic: %v\n%s\n", r, debug.Stack())
+			fmt.Printf("VIOLATION property=%s replay=- kind=checker-panic\n", spec.ID)
+			code = 1
+		}
+	}()
+	checkProdPackages(c)
+	spec.Run(c)
+	if tier == "thorough" && spec.Thorough != nil {
+		spec.Thorough(c)
+	}
+	if *shared == nil && c.tmplAll != nil {
+		*shared = c.tmplAll
+	}
+	c.finish()
+	kf, err := loadKnown(verif)
+	if err != nil {
+		fmt.Println(err)
+		return 2
+	}
+	c.applyKnown(kf)
+	res := report(c, spec, verif, nowSeconds(t0), "bin/loxcheck -replay {path}")
+	if res.violations > 0 {
+		return 1
+	}
+	return 0
 }
 
 func runProp(spec *PropSpec, tier, repo, verif, replayRule, replayConstruct, rulesOnly string) (code int) {
